@@ -1,10 +1,12 @@
 #!/bin/bash
-# Full .vo build of the development (never -vos). Serialised by a lock so that
-# concurrent checks do not race on the same Makefile.
-set -e
+# Translate the kernel of the repository (VERIF_REPO, default /repo) and do a full .vo build of
+# the development (never -vos). Serialised by a lock so that concurrent checks do not race.
+# exit status: 3 = translator refused the sources, otherwise make's status.
 cd "$(dirname "$0")"
 exec 9>.build.lock
 flock 9
+REPO="${VERIF_REPO:-/repo}"
+/venv/bin/python ../translator/py2gallina.py "$REPO" theories/Gen || exit 3
 { cat _CoqProject.in; find theories -name '*.v' | sort; } > _CoqProject
-coq_makefile -f _CoqProject -o Makefile >/dev/null
+coq_makefile -f _CoqProject -o Makefile >/dev/null || exit 4
 timeout 1500 make -k -j16 "$@"
